@@ -1,6 +1,6 @@
 --------------------------- MODULE FoParseStateHist ---------------------------
 (* history generation for C07: behaviours of the FoParseState machine over a concrete package read from a file *)
-EXTENDS FoParseState, Json
+EXTENDS FoParseState, Json, TLC
 CONSTANTS PkgFile
 Pkg == ndJsonDeserialize(PkgFile)          \* one line per definition: [id, deps, tva, fwd, istype, locals]
 PDefs == {Pkg[i].id : i \in 1..Len(Pkg)}
